@@ -1,6 +1,6 @@
 SPECIFICATION TraceSpec
 CONSTANTS Src = {"v","b","g","r","h","y","e","s","z"}
-          Tgt = {"v","t","g","s"}
+          Tgt = {"v","t","g","s","w"}
           Ids = {"i1","i2","i3","i4","i5","i6"}
           Vars = {1,2}
           Gated = {"g","y","z"}
